@@ -84,6 +84,20 @@ class Check(Property):
             else:
                 b = P.compound(rng, P.mult, frac_prob=0.1)
                 kind = "random compound"
+            # a unit with a negative scale (electron_g_factor) to a fractional power has no real value: not a unit expression
+            def degenerate(items):
+                for k, e in items.items():
+                    if e.denominator != 1:
+                        try:
+                            pf, uu = P.proj.resolve(k)
+                            f, _ = P.proj.root({uu["name"]: Fraction(1)})
+                            if not isinstance(f, regs.D.Irr) and f < 0:
+                                return True
+                        except Exception:  # noqa: BLE001
+                            pass
+                return False
+            if degenerate(a) or degenerate(b):
+                continue
             out.append(mk(kind, a, b))
         # dimension expressions (derived dimension names) as accepted by Quantity.check / ureg.check
         dim_names = [d["name"] for d in P.proj.dims] + list({k for u_ in P.proj.units if u_["is_base"] for k in u_["ref"]})
@@ -131,6 +145,9 @@ class Check(Property):
 
     def same(self, c, io, mo):
         for i, m in zip(io, mo):
+            if "OverflowError" in str(i.get("err", "")):
+                self.bump("float overflow (not compared)")
+                continue
             if m.get("err") == "Inexact":
                 self.bump("inexact (not compared)")
                 if "err" in i:
@@ -213,6 +230,10 @@ class Check(Property):
                 ok, ename = True, None
             except Exception as exc:  # noqa: BLE001
                 ok, ename = False, type(exc).__name__
+            overflow = ename in ("OverflowError", "ZeroDivisionError")     # float range of an inexact factor: inconclusive
+            if overflow:
+                self.bump("float overflow (inconclusive)")
+                continue
             if ok != same:
                 v.append(f"{tag} [{tname},{kw}]: conversion {'succeeds' if ok else 'raises ' + str(ename)} but "
                          f"dimensionalities are {'equal' if same else 'different'} ({ds} vs {dd})")
